@@ -173,7 +173,7 @@ pub open spec fn sorted_inner(n: HashMap<Commodity, Entry>, o: HashMap<Commodity
 """),
         U("PriceRepositoryBuilder::build_naive", PD, [r"impl<'ctx> PriceRepositoryBuilder<'ctx>", r"fn build_naive\b"], fn="build_naive", wrap=("impl PriceRepositoryBuilder {", "}"),
           rewrites=[("R7",), RET(),
-                    ("R41-nested-values-mut-for-each", "re:this\\.records\\s*\\.values_mut\\(\\)\\s*\\.for_each\\(\\|x\\| x\\.values_mut\\(\\)\\.for_each\\(\\|x\\| x\\.1\\.sort\\(\\)\\)\\);",
+                    ("R41-nested-values-mut-for-each", "re:this\\.records\\s*\\.values_mut\\(\\)\\s*\\.for_each\\(\\|(\\w+)\\| \\1\\.values_mut\\(\\)\\.for_each\\(\\|(\\w+)\\| \\2\\.1\\.sort\\(\\)\\)\\);",
                      "let keys1__ = hashmap_keys(&this.records); let mut i__: usize = 0;\n        while i__ < keys1__.len() { let k1__ = keys1__[i__]; let mut inner__ = this.records.remove(&k1__).unwrap(); let ghost inner0__ = inner__;\n"
                      "            let keys2__ = hashmap_keys(&inner__); let mut j__: usize = 0;\n            while j__ < keys2__.len() { let k2__ = keys2__[j__]; let mut x = inner__.remove(&k2__).unwrap(); sort_rates(&mut x.1); inner__.insert(k2__, x); j__ += 1; }\n"
                      "            this.records.insert(k1__, inner__); i__ += 1; }", 1)],
